@@ -1,7 +1,8 @@
 --------------------------------- MODULE MC_Api ---------------------------------
 EXTENDS Integers
-SpriteV == [w |-> 2, frames |-> 2]
-EvalV(s, c) == IF c = "width" THEN s.w ELSE IF c = "frames" THEN s.frames ELSE s.w * s.frames
-VARIABLES sprite, todo, inflight, log
-INSTANCE AseApi WITH Threads <- {1, 2, 3}, Calls <- {"width", "frames", "area"}, Sprite <- SpriteV, Eval <- EvalV
+ParseV(f) == IF f = "a" THEN [loaded |-> TRUE, w |-> 2, frames |-> 2] ELSE [loaded |-> TRUE, w |-> 3, frames |-> 1]
+EvalV(s, c) == IF c = "width" THEN s.w ELSE s.w * s.frames
+CONSTANT T
+VARIABLES store, todo, inflight, log
+INSTANCE AseApi WITH Threads <- 1..T, Files <- {"a", "b"}, Accessors <- {"width", "area"}, Parse <- ParseV, Eval <- EvalV, MaxLen <- 2
 =============================================================================
